@@ -23,12 +23,12 @@ import (
 	"github.com/pojntfx/stfs/pkg/cache"
 	"github.com/pojntfx/stfs/pkg/config"
 	"github.com/pojntfx/stfs/pkg/encryption"
-	"github.com/pojntfx/stfs/pkg/recovery"
-	"github.com/pojntfx/stfs/pkg/signature"
 	"github.com/pojntfx/stfs/pkg/fs"
 	"github.com/pojntfx/stfs/pkg/mtio"
 	"github.com/pojntfx/stfs/pkg/operations"
 	"github.com/pojntfx/stfs/pkg/persisters"
+	"github.com/pojntfx/stfs/pkg/recovery"
+	"github.com/pojntfx/stfs/pkg/signature"
 	"github.com/pojntfx/stfs/pkg/tape"
 	_ "modernc.org/sqlite"
 )
@@ -36,12 +36,12 @@ import (
 // NopLogger implements logging.StructuredLogger.
 type NopLogger struct{}
 
-func (NopLogger) Trace(string, ...interface{}) {}
-func (NopLogger) Debug(string, ...interface{}) {}
-func (NopLogger) Info(string, ...interface{})  {}
-func (NopLogger) Warn(string, ...interface{})  {}
-func (NopLogger) Error(string, ...interface{}) {}
-func (NopLogger) Panic(string, ...interface{}) {}
+func (NopLogger) Trace(string, ...interface{})       {}
+func (NopLogger) Debug(string, ...interface{})       {}
+func (NopLogger) Info(string, ...interface{})        {}
+func (NopLogger) Warn(string, ...interface{})        {}
+func (NopLogger) Error(string, ...interface{})       {}
+func (NopLogger) Panic(string, ...interface{})       {}
 func (l NopLogger) With(...interface{}) golog.Logger { return l }
 
 // Cfg is an instance configuration.
